@@ -356,7 +356,11 @@ impl<'a> serde::ser::SerializeStructVariant for &'a mut Recorder {
 /// Records which `deserialize_*` entry point a Deserialize impl calls first, then fails.
 pub struct Probe<'l> {
     pub log: &'l std::cell::RefCell<Vec<String>>,
+    /// which non-newtype `visit_*` to offer to the visitor (a hand-written Deserializer is safe client code)
+    pub mode: usize,
 }
+
+pub const PROBE_MODES: usize = 14;
 
 #[derive(Debug)]
 pub struct ProbeErr(pub String);
@@ -404,10 +408,44 @@ impl<'de, 'l> serde::Deserializer<'de> for Probe<'l> {
         use std::fmt::Write;
         let _ = write!(exp, "{}", E(&v));
         self.log.borrow_mut().push(format!("expecting({exp})"));
-        match v.visit_u64::<ProbeErr>(7) {
-            Ok(_) => self.log.borrow_mut().push("visit_u64 PRODUCED A VALUE".into()),
-            Err(_) => self.log.borrow_mut().push("visit_u64 rejected".into()),
+        struct OneSeq(bool);
+        impl<'de> serde::de::SeqAccess<'de> for OneSeq {
+            type Error = ProbeErr;
+            fn next_element_seed<T: serde::de::DeserializeSeed<'de>>(&mut self, seed: T) -> Result<Option<T::Value>, ProbeErr> {
+                if self.0 {
+                    return Ok(None);
+                }
+                self.0 = true;
+                seed.deserialize(serde::de::value::U8Deserializer::<ProbeErr>::new(7)).map(Some)
+            }
         }
+        struct NoMap;
+        impl<'de> serde::de::MapAccess<'de> for NoMap {
+            type Error = ProbeErr;
+            fn next_key_seed<K: serde::de::DeserializeSeed<'de>>(&mut self, _s: K) -> Result<Option<K::Value>, ProbeErr> {
+                Ok(None)
+            }
+            fn next_value_seed<V2: serde::de::DeserializeSeed<'de>>(&mut self, _s: V2) -> Result<V2::Value, ProbeErr> {
+                Err(ProbeErr("no value".into()))
+            }
+        }
+        let (name2, r) = match self.mode {
+            0 => ("visit_u64", v.visit_u64::<ProbeErr>(7).is_ok()),
+            1 => ("visit_i64", v.visit_i64::<ProbeErr>(-7).is_ok()),
+            2 => ("visit_f64", v.visit_f64::<ProbeErr>(f64::NAN).is_ok()),
+            3 => ("visit_bool", v.visit_bool::<ProbeErr>(true).is_ok()),
+            4 => ("visit_str", v.visit_str::<ProbeErr>("").is_ok()),
+            5 => ("visit_string", v.visit_string::<ProbeErr>(String::new()).is_ok()),
+            6 => ("visit_bytes", v.visit_bytes::<ProbeErr>(&[]).is_ok()),
+            7 => ("visit_none", v.visit_none::<ProbeErr>().is_ok()),
+            8 => ("visit_unit", v.visit_unit::<ProbeErr>().is_ok()),
+            9 => ("visit_seq", v.visit_seq(OneSeq(false)).is_ok()),
+            10 => ("visit_map", v.visit_map(NoMap).is_ok()),
+            11 => ("visit_char", v.visit_char::<ProbeErr>(' ').is_ok()),
+            12 => ("visit_u128", v.visit_u128::<ProbeErr>(u128::MAX).is_ok()),
+            _ => ("visit_some", v.visit_some(serde::de::value::F64Deserializer::<ProbeErr>::new(f64::INFINITY)).is_ok()),
+        };
+        self.log.borrow_mut().push(if r { format!("{name2} PRODUCED A VALUE") } else { format!("{name2} rejected") });
         Err(ProbeErr("probe".into()))
     }
     fn deserialize_tuple<V: serde::de::Visitor<'de>>(self, len: usize, _v: V) -> Result<V::Value, ProbeErr> {
@@ -430,6 +468,8 @@ impl<'de, 'l> serde::Deserializer<'de> for Probe<'l> {
 
 pub fn probe<G: SerdeGlue>() -> Vec<String> {
     let log = std::cell::RefCell::new(Vec::new());
-    let _ = guarded(|| <G::T as Deserialize>::deserialize(Probe { log: &log }).is_ok());
+    for mode in 0..PROBE_MODES {
+        let _ = guarded(|| <G::T as Deserialize>::deserialize(Probe { log: &log, mode }).is_ok());
+    }
     log.into_inner()
 }
